@@ -535,6 +535,9 @@ class Builder:
         # streaming
         if kind == "plain" and self.coin("p_stream"):
             s = self.d(st.integers(0, 2))
+            if s == 1 and self.p.get("avoid_client_streaming_unary"):
+                self.excluded.append("F-async-cs-sample")     # known finding (C14): asyncio sample never awaits the call
+                s = 2
             meth["ss"] = s in (0, 2)
             meth["cs"] = s in (1, 2)
             if meth["output"] == ".google.protobuf.Empty" and not self.p.get("allow_streaming_void"):
